@@ -679,7 +679,11 @@ def ptp(arr, axis=None, keepdims=False, mask_identity=True):
     value (None) handling in reducers.
     """
     if axis is None:
-        out = ak.max(arr) - ak.min(arr)
+        maxi, mini = ak.max(arr), ak.min(arr)
+        if maxi is None or mini is None:
+            out = None
+        else:
+            out = maxi - mini
         if not mask_identity and out is None:
             out = 0
 
